@@ -13,6 +13,7 @@ import (
 	"fmt"
 	"io"
 	"net"
+	"os"
 	"strings"
 	"sync"
 	"time"
@@ -1124,6 +1125,13 @@ func runBoundaries(c *hx.Ctx, l *loop) {
 // Run: policy tables over every flag combination, selection directly and through handshakes, the inspector with real
 // bytes, the two trust matrices.
 func Run(c *hx.Ctx) {
+	// the forked crypto/tls negotiates TLS 1.3 only with GODEBUG=tls13=1 (read once, at the first handshake)
+	if gd := os.Getenv("GODEBUG"); !strings.Contains(gd, "tls13=") {
+		if gd != "" {
+			gd += ","
+		}
+		os.Setenv("GODEBUG", gd+"tls13=1")
+	}
 	log.DefaultLogger.SetLogLevel(log.FATAL)
 	if err := mtls.Register(hookType, hookedFactory{}); err != nil {
 		panic(err)
@@ -1136,6 +1144,22 @@ func Run(c *hx.Ctx) {
 	l := newLoop()
 	defer l.ln.Close()
 
+	only := os.Getenv("C13_ONLY") // development aid: run a single family of kinds
+	if only == "" || only == "res" {
+		runResume(c, l, c.N(1, 3))
+	}
+	if only == "" || only == "upd" {
+		runUpdateFixed(c, g)
+		for i := 0; i < c.N(400, 2000); i++ {
+			runUpdate(c, g, nil, -1)
+		}
+	}
+	if only != "" {
+		if only == "res" {
+			runResumeLate(c, l)
+		}
+		return
+	}
 	runPolicyTables(c)
 	runBoundaries(c, l)
 	runInspector(c, g, l)
@@ -1162,4 +1186,5 @@ func Run(c *hx.Ctx) {
 	for i := 0; i < c.N(300, 1500); i++ {
 		runPolicyHandshake(c, g, l, modeOf(i))
 	}
+	runResumeLate(c, l)
 }
